@@ -20,19 +20,24 @@ pub const ENUM: &str = "Kind";
 pub const SITES: &[&str] = &["field", "param", "return", "channel", "event"];
 
 pub fn source_for(ty: &Ty) -> String {
+    source_for_spelled(ty, false)
+}
+
+/// `qualify`: every constructor and named type written with its path instead of relying on `use`
+pub fn source_for_spelled(ty: &Ty, qualify: bool) -> String {
     let mut s = String::from(PRELUDE);
     s.push_str("#[derive(Debug, Clone, Serialize, Deserialize)]\npub struct Item {\n    pub id: i32,\n}\n\n");
     s.push_str("#[derive(Debug, Clone, Serialize, Deserialize, PartialEq, Eq, Hash, PartialOrd, Ord)]\npub enum Kind {\n    Alpha,\n    Beta,\n}\n\n");
     if let Ty::Result(..) = ty {
-        s.push_str(&format!("#[tauri::command]\npub fn give() -> {} {{\n    todo!()\n}}\n", ty.rust(true)));
+        s.push_str(&format!("#[tauri::command]\npub fn give() -> {} {{\n    todo!()\n}}\n", ty.rust_with(true, qualify)));
         return s;
     }
-    s.push_str(&format!("#[derive(Serialize, Deserialize)]\npub struct Holder {{\n    pub f: {},\n}}\n\n", ty.rust(true)));
+    s.push_str(&format!("#[derive(Serialize, Deserialize)]\npub struct Holder {{\n    pub f: {},\n}}\n\n", ty.rust_with(true, qualify)));
     s.push_str("#[tauri::command]\npub fn keep(h: Holder) {}\n\n");
-    s.push_str(&format!("#[tauri::command]\npub fn take(x: {}) {{}}\n\n", ty.rust(false)));
-    s.push_str(&format!("#[tauri::command]\npub fn give() -> {} {{\n    todo!()\n}}\n\n", ty.rust(true)));
-    s.push_str(&format!("#[tauri::command]\npub fn stream(ch: Channel<{}>) {{}}\n\n", ty.rust(true)));
-    s.push_str(&format!("pub fn fire(app: AppHandle, p: {}) {{\n    app.emit(\"ev\", p).unwrap();\n}}\n", ty.rust(false)));
+    s.push_str(&format!("#[tauri::command]\npub fn take(x: {}) {{}}\n\n", ty.rust_with(false, qualify)));
+    s.push_str(&format!("#[tauri::command]\npub fn give() -> {} {{\n    todo!()\n}}\n\n", ty.rust_with(true, qualify)));
+    s.push_str(&format!("#[tauri::command]\npub fn stream(ch: Channel<{}>) {{}}\n\n", ty.rust_with(true, qualify)));
+    s.push_str(&format!("pub fn fire(app: AppHandle, p: {}) {{\n    app.emit(\"ev\", p).unwrap();\n}}\n", ty.rust_with(false, qualify)));
     s
 }
 
@@ -172,13 +177,20 @@ pub fn observe(out: &GenOut, site: &str, zod: bool) -> Obs {
 }
 
 pub fn check_type(ty: &Ty, mode: &str, stats: &mut Stats) -> Vec<Failure> {
-    let src = source_for(ty);
+    check_type_spelled(ty, mode, false, stats)
+}
+
+pub fn check_type_spelled(ty: &Ty, mode: &str, qualify: bool, stats: &mut Stats) -> Vec<Failure> {
+    let src = source_for_spelled(ty, qualify);
     must_parse("src/lib.rs", &src);
     let out = generate(&[("src/lib.rs".to_string(), src.clone())], &Cfg::mode(mode));
     let zod = mode == "zod";
     let mut fails = vec![];
     let sites: &[&str] = if matches!(ty, Ty::Result(..)) { &["return"] } else { SITES };
-    let base_case = |site: &str| json!({"rust_type": ty.rust(false), "site": site, "mode": mode, "depth": ty.depth()});
+    let base_case = |site: &str| json!({"rust_type": ty.rust_with(false, qualify), "site": site, "mode": mode, "depth": ty.depth()});
+    if qualify {
+        stats.label("spelling=qualified_paths");
+    }
     if let Err(e) = &out.result {
         stats.eval();
         fails.push(
@@ -210,6 +222,7 @@ pub fn check_type(ty: &Ty, mode: &str, stats: &mut Stats) -> Vec<Failure> {
                 .tag(format!("site={}", site))
                 .tag(format!("mode={}", mode))
                 .tag(if zod && (*site == "field" || *site == "param") { "render=schema" } else { "render=tstext" })
+                .tags(if qualify { vec!["spelling=qualified_paths".to_string()] } else { vec![] })
                 .observed(observed)
                 .expected(expected.to_string())
                 .case(base_case(site))
@@ -262,7 +275,7 @@ fn random_case(t: &mut Tape) -> (Ty, &'static str) {
 pub fn run(ctx: &Ctx) {
     let depth = ctx.tier.pick(2, 3);
     ctx.set_rule(&format!(
-        "constructor chains over 12 one-hole contexts x 20 leaves enumerated exhaustively to depth {} (+ Result<T,E>/Result<T> roots over chains of depth <= {}), plus random full trees (depth<=5, <=12 nodes); every type at the 5 sites x 2 modes; evaluation = one (type, site, mode) observation; non-trivial = nesting depth >= 2, distinct by (type, site, mode)",
+        "constructor chains over 12 one-hole contexts x 20 leaves enumerated exhaustively to depth {} (+ Result<T,E>/Result<T> roots over chains of depth <= {}), plus the chains of depth <= 1 written with paths instead of imports (std::collections::HashMap<..>, std::option::Option<..>, crate::Item), plus random full trees (depth<=5, <=12 nodes; one in four path-spelled); every type at the 5 sites x 2 modes; evaluation = one (type, site, mode) observation; non-trivial = nesting depth >= 2, distinct by (type, site, mode)",
         depth,
         depth - 1
     ));
@@ -284,6 +297,15 @@ pub fn run(ctx: &Ctx) {
     }
     ctx.note("chains_enumerated", json!(chains.len()));
     ctx.enumerate("c05.chain", &keys, |(t, m)| json!({"ty": ty_to_json(t), "mode": m}), |(t, m), stats| check_type(t, m, stats));
+    // the same types written with their paths (std::collections::HashMap<..>, crate::Item): chains of
+    // depth <= 1 exhaustively, random trees one time in four
+    let mut pkeys: Vec<(Ty, &'static str)> = vec![];
+    for t in chains.iter().filter(|t| t.depth() <= 1 && t.rust_with(false, true) != t.rust(false)) {
+        pkeys.push((t.clone(), "none"));
+        pkeys.push((t.clone(), "zod"));
+    }
+    ctx.note("path_spelled_chains", json!(pkeys.len()));
+    ctx.enumerate("c05.paths", &pkeys, |(t, m)| json!({"ty": ty_to_json(t), "mode": m}), |(t, m), stats| check_type_spelled(t, m, true, stats));
     let cases = ctx.tier.pick(3000, 50000);
     ctx.search("c05.tree", cases, 64, |tape, stats| {
         let (ty, mode) = random_case(tape);
@@ -291,7 +313,8 @@ pub fn run(ctx: &Ctx) {
         if ty.has_comma_inside() {
             stats.label("has_composite_sibling");
         }
-        check_type(&ty, mode, stats)
+        let qualify = tape.chance(1, 4);
+        check_type_spelled(&ty, mode, qualify, stats)
     });
 }
 
@@ -301,10 +324,15 @@ pub fn replay(check: &str, input: &Value, stats: &mut Stats) -> Option<Vec<Failu
             let ty = ty_from_json(&input["ty"])?;
             Some(check_type(&ty, input["mode"].as_str().unwrap_or("none"), stats))
         }
+        "c05.paths" => {
+            let ty = ty_from_json(&input["ty"])?;
+            Some(check_type_spelled(&ty, input["mode"].as_str().unwrap_or("none"), true, stats))
+        }
         "c05.tree" => {
             let mut tape = Tape::new(super::tape_of(input));
             let (ty, mode) = random_case(&mut tape);
-            Some(check_type(&ty, mode, stats))
+            let qualify = tape.chance(1, 4);
+            Some(check_type_spelled(&ty, mode, qualify, stats))
         }
         _ => None,
     }
